@@ -38,6 +38,73 @@ fn gen_expr(rng: &mut Rng, tag: &str) -> (String, Vec<String>, &'static str) {
     }
 }
 
+/// every eighth case: a store fault during a lifecycle (see `fault_case`)
+pub fn run_case_idx(seed: u64, index: usize) -> CaseResult {
+    if index % 8 != 7 {
+        return run_case(seed);
+    }
+    let mut res = CaseResult::default();
+    let mut srv = match Srv::start("c18f") {
+        Ok(s) => s,
+        Err(e) => {
+            res.inconclusive = Some(format!("start: {}", e));
+            return res;
+        }
+    };
+    if let Err(e) = fault_case(&mut srv, seed, &mut res) {
+        let stderr = srv.stderr();
+        absorb(&mut res, &["C18"], e, stderr);
+    }
+    srv.finish();
+    res
+}
+
+/// A generator is in the middle of a lifecycle when appends into its context start to fail (the context's
+/// registration is removed) and later work again (the registration is imported back). Whatever the generator does
+/// about the failure, the recv frames of a lifecycle are a *prefix* of what the pipeline produced, and a stop never
+/// closes a lifecycle that has a gap. (On the unchanged tree the generator thread ends at the failed append.)
+fn fault_case(srv: &mut Srv, seed: u64, res: &mut CaseResult) -> R<()> {
+    let mut rng = Rng::new(seed);
+    let ctx = srv.new_context()?;
+    let reg = Frame::builder("xs.context", ZERO_CONTEXT).id(ctx).ttl(xs::store::TTL::Forever).build();
+    let k = 6 + rng.below(4);
+    let step_ms = 150u64;
+    let expr = format!("1..{} | each {{|x| sleep {}ms; $\"v($x)\"}}", k, step_ms);
+    let sp = srv.must_append("fg.spawn", ctx, Some(expr.as_bytes()), None, None)?;
+    let sid = sp.id.to_string();
+    // after two values: appends into the context fail for a while
+    srv.wait(Duration::from_secs(20), |log| log.iter().filter(|f| f.topic == "fg.recv" && meta_str(f, "source_id") == Some(&sid)).count() >= 2)?;
+    srv.call(json!({"op": "remove", "id": ctx.to_string()}))?;
+    std::thread::sleep(Duration::from_millis(step_ms * 2 + rng.below(100) as u64));
+    srv.call(json!({"op": "import", "frame": reg}))?;
+    std::thread::sleep(Duration::from_millis(step_ms * (k as u64 + 2)));
+    srv.settle(Duration::from_millis(300), Duration::from_secs(5))?;
+    let log: Vec<Frame> = srv.era_log().iter().filter(|f| !is_synth(f)).cloned().collect();
+    // first lifecycle only: frames up to the first stop (or the end)
+    let mine: Vec<&Frame> = log.iter().filter(|f| meta_str(f, "source_id") == Some(&sid) && f.topic.starts_with("fg.")).collect();
+    let first_stop = mine.iter().position(|f| f.topic == "fg.stop");
+    let second_start = mine.iter().enumerate().filter(|(_, f)| f.topic == "fg.start").nth(1).map(|(i, _)| i);
+    let end = first_stop.map(|i| i + 1).or(second_start).unwrap_or(mine.len());
+    let mut got = vec![];
+    for f in mine[..end].iter().filter(|f| f.topic == "fg.recv") {
+        got.push(srv.content_str(f)?.unwrap_or_default());
+    }
+    let want: Vec<String> = (1..=k).map(|i| format!("v{}", i)).collect();
+    res.count("fault_lifecycles_checked", 1);
+    res.count("lifecycles_checked", 1);
+    let d = json!({"expression": expr, "received": got, "stopped": first_stop.is_some()});
+    let is_prefix = got.len() <= want.len() && got[..] == want[..got.len()];
+    if !is_prefix {
+        res.find(&["C18"], "fault/recv-frames-are-not-a-prefix-of-what-the-pipeline-produced", d.clone());
+    } else if first_stop.is_some() && got.len() < want.len() {
+        res.find(&["C18"], "fault/stop-closes-a-lifecycle-with-missing-recv-frames", d.clone());
+    }
+    res.seen("fault_outcomes", if first_stop.is_some() { "stopped" } else { "ended-without-stop" });
+    res.nontrivial = got.len() >= 2;
+    res.hash = fnv(&format!("fault{}", seed));
+    Ok(())
+}
+
 pub fn run_case(seed: u64) -> CaseResult {
     let mut res = CaseResult::default();
     let mut srv = match Srv::start("c18") {
